@@ -64,6 +64,6 @@ func SpecMarkedText(tVersion, tShort, tYear, tSecRule, tSignature string, lines 
 //@   results r
 //@   modifies fsWrites
 //@   checks[C15,C14] only-conf-and-example: implies(called(processFile), utils.SpecHasSuffix(resultOf(Name, 0), ".conf") || utils.SpecHasSuffix(resultOf(Name, 0), ".example"))
-//@   checks[C14] every-conf-and-example: implies(called(IsDir) && !resultOf(IsDir, 0) && (utils.SpecHasSuffix(resultOf(Name, 0), ".conf") || utils.SpecHasSuffix(resultOf(Name, 0), ".example")), called(processFile))
+//@   checks[C14] every-conf-and-example: implies(called(Name) && (utils.SpecHasSuffix(resultOf(Name, 0), ".conf") || utils.SpecHasSuffix(resultOf(Name, 0), ".example")), called(processFile))
 
 var _ = utils.SpecHasSuffix
